@@ -393,7 +393,7 @@ func c17Key(r *mon.Run, rng *rand.Rand, bits, nb, nLeaves, keyNo int) {
 				continue
 			}
 			sel, shifts := []int{pos[0], pos[len(pos)-1]}, []int64{1, 3, -1, -2}
-			if !r.Thorough() {
+			if !r.Thorough() || keyNo > 0 {
 				sel, shifts = []int{pos[(len(kind)%2)*(len(pos)-1)]}, []int64{1, -1}
 			}
 			for _, li := range sel {
